@@ -191,8 +191,16 @@ func ZZ_C11_H2() {
 		}
 	}
 	// segmentation independence
-	sp := zz.Range("split", 1, len(wire)-1)
-	cut := zzClientRead(append([]byte(nil), wire...), []int{sp}, stream, maxBody, second)
+	sp := zz.Range("split", 0, len(wire)-1) // 0 = byte-at-a-time delivery
+	splits := []int{sp}
+	if sp == 0 {
+		splits = nil
+		for i := 1; i < len(wire); i++ {
+			splits = append(splits, i)
+		}
+		zz.Cover("byte-at-a-time", true)
+	}
+	cut := zzClientRead(append([]byte(nil), wire...), splits, stream, maxBody, second)
 	same := (whole.err == nil) == (cut.err == nil) && whole.tooLarge == cut.tooLarge &&
 		whole.status == cut.status && bytes.Equal(whole.body, cut.body) && bytes.Equal(whole.xa, cut.xa) && bytes.Equal(whole.hdr, cut.hdr) &&
 		(whole.err2 == nil) == (cut.err2 == nil) && whole.status2 == cut.status2 && bytes.Equal(whole.body2, cut.body2)
